@@ -82,7 +82,9 @@ func DrawSimCase(ch Chooser, prop string) *SimCase {
 	case 1, 2:
 		c.Prog, c.StageRen = gen.Rename(c.Prog, ch.Intn)
 	case 3:
-		c.Prog, c.StageRen = gen.Rename(c.Prog, ch.Intn, gen.RenameOpts{ShadowAlias: true})
+		// C14 compares verdicts under renaming; a payload spelled like the provider alias is
+		// (consistently) not something Grits lets every binder do, so that stage is kept out of it
+		c.Prog, c.StageRen = gen.Rename(c.Prog, ch.Intn, gen.RenameOpts{ShadowAlias: prop != "C14"})
 	case 4:
 		gen.ApplyTypeVariants(c.Prog, ch.Intn)
 	case 5:
